@@ -6,22 +6,31 @@ if os.path.exists('/verif/seeded/RESULTS.md'):
     for l in open('/verif/seeded/RESULTS.md'):
         m = re.match(r'\| (\S+) \| (\S+) \| ([^|]+) \| ([^|]*) \|', l)
         if m and m.group(1) != 'seed':
-            res[m.group(1)] = (m.group(3).strip(), m.group(4).strip())
-print("| seed | what it needs to manifest | caught by (quick tier, VERIF_SEED=1) | note |")
+            res[m.group(1)] = (m.group(2), m.group(3).strip(), m.group(4).strip())
+def key(d):
+    p, k = d.split('-m'); return (p, int(k))
+ids = sorted([d for d in os.listdir('/verif/seeded') if os.path.exists(f'/verif/seeded/{d}/meta.json')], key=key)
+print("| seed | what it needs to manifest | result of the quick check (VERIF_SEED=1, first violation reported) | note |")
 print("|---|---|---|---|")
-for d in sorted(os.listdir('/verif/seeded')):
-    mp = f'/verif/seeded/{d}/meta.json'
-    if not os.path.exists(mp):
-        continue
-    m = json.load(open(mp))
+for d in ids:
+    m = json.load(open(f'/verif/seeded/{d}/meta.json'))
     how = m['check_result']['how']
     note = ''
-    for key in ('missed at first', 'required', 'needed'):
-        i = how.find(key)
+    for kw in ('missed at first', 'exit 2 at first', 'not by the '):
+        i = how.find(kw)
         if i >= 0:
-            note = '**missed at first**: ' + how[i:] if 'missed at first' in how or 'required' in how else how[i:]
-            how = how[:i].rstrip(' ;,')
+            note = how[i:].rstrip(') ')
+            if kw == 'missed at first' or kw == 'exit 2 at first':
+                note = '**' + kw + '**' + note[len(kw):]
             break
     r = res.get(d)
-    status = r[0] + (f" ({r[1]})" if r and r[1] else '') if r else 'caught'
-    print(f"| {d} | {m['needs_to_manifest']} | {how} | {note} |")
+    if r:
+        prop, status, viol = r
+        viol = re.sub(r'-seed\d+-run', ', run ', viol)
+        viol = re.sub(r'^C\d\d-', '', viol)
+        col = f"{status}: {viol}" if viol else status
+        if prop != m['property']:
+            col += f" (by the {prop} check)"
+    else:
+        col = 'caught: ' + re.split(r' \((missed|exit)', how)[0]
+    print(f"| {d} | {m['needs_to_manifest']} | {col} | {note} |")
